@@ -47,7 +47,8 @@ RULE = ("STRUCTURED: districts grown to a prescribed IDENTIFY recursion depth 0-
         "graph, duplicated or non-topological orders) for the error taxonomy.  A case is non-trivial when its "
         "preconditions hold, the input expression was confirmed to denote Q[T] on the random model and the run went "
         "through the recursive branch (A is neither C nor T) or through a c-factor routine on a set with >= 2 "
-        "variables.")
+        "variables."
+        " A SMALL-SCOPE stream (session 4): every labelled ADMG on 1-3 nodes (thorough: also 1 in 40 of those on 4 nodes) through the same per-graph case builder: every district T, its sub-districts C, every form of Q[T], and the c-factor routines.")
 ASSUMPTIONS = [
     "all theorems are about the Lean model Y0.Model.Tian / Y0.Model.TianDsl (tian_id.py after fix 010d659); the tie to the Python is this run's correspondence sampling (structural comparison up to set / multiset order and x*1, x/1; evaluation fall-back on a shared model otherwise)",
     "model class of the theorems and of the oracle: discrete variables, positive rational parameters, independent root latents shared only across bidirected edges (Y0/Spec/Scm.lean); a population tag reads the same single-domain model; G acyclic (MG.Ranked) and well formed (MG.WF)",
@@ -264,6 +265,29 @@ def _gen_valid(rng, tier, n_graphs, nmax_eval):
         big = rng.random() < 0.25
         g = G.rand_graph(rng, 1, 7 if big else nmax_eval, acyclic=True,
                          pd=rng.choice([0.3, 0.5, 0.7]), pb=rng.choice([0.2, 0.35, 0.5, 0.7]))
+        _cases_of_graph(rng, tier, g, nmax_eval, out)
+    return out
+
+
+def _gen_small_scope(rng, tier):
+    """SMALL-SCOPE stream (session 4): EVERY labelled ADMG on 1-3 nodes (207 graphs; thorough: also 1 in 40 of the 34752 on 4 nodes)
+    through the same per-graph case builder as the random stream: every district T, sub-districts C of it, every form of Q[T],
+    the c-factor routines on a set H."""
+    out = []
+    for n in (1, 2, 3):
+        for g in G.all_labelled_admgs(n):
+            _cases_of_graph(rng, tier, g, 5, out)
+    if tier == "thorough":
+        for k, g in enumerate(G.all_labelled_admgs(4)):
+            if k % 40 == 0:
+                _cases_of_graph(rng, tier, g, 5, out)
+    for c in out:
+        c["stream"] = "smallscope"
+    return out
+
+
+def _cases_of_graph(rng, tier, g, nmax_eval, out):
+    if True:
         V = G.all_nodes(g)
         di = [tuple(e) for e in g["di"]]
         bi = [tuple(e) for e in g["bi"]]
@@ -309,7 +333,6 @@ def _gen_valid(rng, tier, n_graphs, nmax_eval):
             out.append(dict(base, op="low_index", vertex=vtx, H=sorted(H), topo=htopo, q=q, qkind=kind))
             A = sorted(S.ancestors_in(di, H, G.rand_subset(rng, sorted(H), p=rng.choice([0.2, 0.5]))))
             out.append(dict(base, op="ancestral", A=A, H=sorted(H), topo=topo, q=q, qkind=kind))
-    return out
 
 
 def _q_of_some_set(rng, V, di, bi, dists):
@@ -859,6 +882,7 @@ def cases(rng: random.Random, tier: str):
         out += _gen_starred(rng, tier, 150)
         out += _gen_recursion(rng, tier, [(1, 80), (2, 50), (3, 12)], nm=1)
         out += _gen_recursion(rng, tier, [(1, 30), (2, 20)], nm=2)
+    out += _gen_small_scope(rng, tier)      # appended: the earlier cases of a seed are unchanged
     return out
 
 
